@@ -22,6 +22,7 @@ _suppress_warnings = False
 
 from .context import (
     Kernel,
+    KernelDict,
     ModuleNotAvailable,
     SourceType,
     XBuffer,
@@ -646,7 +647,7 @@ class ContextCpu(XContext):
 
     def __getstate__(self):
         state = self.__dict__.copy()
-        state["_kernels"] = {}
+        state["_kernels"] = KernelDict()
         del state["_buffers"]
         return state
 
